@@ -11,6 +11,9 @@ package main
 import (
 	"fmt"
 	"go/types"
+	"regexp"
+	"strconv"
+	"unicode/utf8"
 	"strings"
 )
 
@@ -294,7 +297,7 @@ func (i *Interp) validateRequired(t types.Type, v value, path string, depth int)
 						omitempty = true
 					}
 				default:
-					if _, ok := i.customValidators[r]; ok {
+					if _, ok := i.customValidators[r]; ok || builtinValidatorRule(r) {
 						if dive {
 							elemCustom = append(elemCustom, r)
 						} else {
@@ -366,6 +369,9 @@ func (i *Interp) validateRequired(t types.Type, v value, path string, depth int)
 // tag with a FieldLevel whose Field() is the given value (the only part of
 // the interface goflow's validators use).
 func (i *Interp) runCustomValidator(tag string, t types.Type, v value) bool {
+	if builtinValidatorRule(tag) {
+		return builtinValidate(tag, v)
+	}
 	fn := i.customValidators[tag]
 	pkg := i.prog.ImportedPackage("github.com/nyaruka/goflow/zzverif")
 	if fn == nil || pkg == nil || pkg.Type("FieldLevel") == nil || i.vfr == nil {
@@ -438,4 +444,104 @@ func isZeroForValidate(t types.Type, v value) bool {
 		return u == 0
 	}
 	return false
+}
+
+// Built-in rules of the go-playground validator that are decided on concrete
+// values (a value with symbolic content passes, as every cut rule does):
+// uuid4, uuid, eq=, min=, max=, with `|` alternatives.  goflow's readers
+// reject definitions by these rules (ids that are not UUIDs), so a model that
+// cut them would follow hostile definitions further than the real reader does.
+var reUUID4 = regexp.MustCompile(`^[0-9a-f]{8}-[0-9a-f]{4}-4[0-9a-f]{3}-[89ab][0-9a-f]{3}-[0-9a-f]{12}$`)
+var reUUID = regexp.MustCompile(`^[0-9a-f]{8}-[0-9a-f]{4}-[0-9a-f]{4}-[0-9a-f]{4}-[0-9a-f]{12}$`)
+
+func builtinValidatorRule(r string) bool {
+	for _, alt := range strings.Split(r, "|") {
+		name := alt
+		if c := strings.IndexByte(alt, '='); c >= 0 {
+			name = alt[:c]
+		}
+		switch name {
+		case "uuid4", "uuid", "eq", "min", "max":
+		default:
+			return false
+		}
+	}
+	return true
+}
+
+func builtinValidate(rule string, v value) bool {
+	for _, alt := range strings.Split(rule, "|") {
+		if builtinValidateOne(alt, v) {
+			return true
+		}
+	}
+	return false
+}
+
+func builtinValidateOne(rule string, v value) bool {
+	name, param := rule, ""
+	if c := strings.IndexByte(rule, '='); c >= 0 {
+		name, param = rule[:c], rule[c+1:]
+	}
+	str, isStr := "", false
+	switch x := v.(type) {
+	case string:
+		str, isStr = x, true
+	case sstring:
+		b := make([]byte, len(x))
+		for k, e := range x {
+			c, ok := e.(uint8)
+			if !ok {
+				return true // symbolic content: not decided
+			}
+			b[k] = c
+		}
+		str, isStr = string(b), true
+	}
+	n, perr := strconv.ParseInt(param, 10, 64)
+	switch name {
+	case "uuid4":
+		return !isStr || reUUID4.MatchString(str)
+	case "uuid":
+		return !isStr || reUUID.MatchString(str)
+	case "eq":
+		if isStr {
+			return str == param
+		}
+		return true
+	case "min", "max":
+		if perr != nil {
+			return true
+		}
+		var size int64
+		switch x := v.(type) {
+		case string, sstring:
+			size = int64(utf8.RuneCountInString(str))
+		case []value:
+			size = int64(len(x))
+		case *smap:
+			if x == nil {
+				size = 0
+			} else {
+				for p := range x.live {
+					if x.live[p] {
+						size++
+					}
+				}
+			}
+		case int:
+			size = int64(x)
+		case int64:
+			size = x
+		case int32:
+			size = int64(x)
+		default:
+			return true
+		}
+		if name == "min" {
+			return size >= n
+		}
+		return size <= n
+	}
+	return true
 }
